@@ -140,3 +140,38 @@ class Ctx:
 
     def cleanup(self):
         shutil.rmtree(self.tmp, ignore_errors=True)
+
+
+# ---- helpers shared by property modules ---------------------------------------------------------------
+import re as _re
+from concurrent.futures import ThreadPoolExecutor as _TPE
+
+
+def make_cfg(ctx, template, name=None, **subst):
+    """copy spec/<template> into the scratch dir with constants replaced:  KEY = value"""
+    src = open(os.path.join(ROOT, 'spec', template)).read()
+    for k, v in subst.items():
+        src, n = _re.subn(r'(?m)^(\s*)%s\s*=.*$' % _re.escape(k), r'\g<1>%s = %s' % (k, v), src)
+        if n == 0:
+            raise Machinery(f'constant {k} not in {template}')
+    name = name or f'{template[:-4]}_{abs(hash(tuple(sorted(subst.items())))) % 10**8}.cfg'
+    path = os.path.join(ctx.tmp, name)
+    with open(path, 'w') as f:
+        f.write(src)
+    return path
+
+
+def tlc_sharded(ctx, module, template, nshards, part, threads=8, **kw):
+    """run one single-worker TLC per shard of the initial states, concurrently; returns list of results"""
+    cfgs = [make_cfg(ctx, template, name=f'{template[:-4]}_s{i}.cfg', Shard=i, NShards=nshards) for i in range(nshards)]
+    with _TPE(max_workers=threads) as ex:
+        futs = [ex.submit(ctx.tlc, module, c, part=part, workers=1, **kw) for c in cfgs]
+        return [f.result() for f in futs]
+
+
+def pmap(fn, items, procs=16, chunksize=64):
+    import multiprocessing as mp
+    if len(items) < 64 or procs == 1:
+        return [fn(x) for x in items]
+    with mp.get_context('fork').Pool(procs) as pool:
+        return pool.map(fn, items, chunksize=chunksize)
